@@ -14,14 +14,17 @@ META = {
              "yaml.rs:83-88 behind a buffered reader): for ALL stream lengths, document counts, packetisations and monotone "
              "look-ahead functions, whenever the source is asked for more data every document whose input had been delivered is "
              "already with the writer; hence lag at most two documents whenever the parser needs no input beyond document k+2 to "
-             "complete document k. Proved on the input-handle model: a detection prefix request captures at most max(asked, "
+             "complete document k; for MessagePack that look-ahead premise is proved on the model of rmp-serde's decoder "
+             "(C05_msgpack_decoder_needs_no_lookahead: a document is decoded the same way whatever follows it and leaves what follows "
+             "untouched). Proved on the input-handle model: a detection prefix request captures at most max(asked, "
              "already captured) bytes. The chunker's one-document delay is the ChunkerModel of C03. Proved on the re-encoder model "
              "(UtfModel, diffed under C07/C17): a read() of the UTF-16/32 re-encoder always fills the buffer it is given unless "
              "the text ends (C05_reencoder_fills_request) - the formal root of the known finding on re-encoded streams. The implementation's traces are "
              "validated against the invariant: a generator reader (holding nothing) records at every read() how many documents "
              "were completely delivered and completely written, for N up to 2*10^5 documents, sizes from 48 B to 256 KiB, packets of "
              "a fraction of a document, one document and several documents, three source formats, explicit and detected, two "
-             "targets. Peak live heap is measured by a counting global allocator and must not grow with N.",
+             "targets; also streams that begin with one large document followed by hundreds of small ones, and UTF-8 streams behind a "
+             "byte order mark. Peak live heap is measured by a counting global allocator and must not grow with N.",
     "level_note": "PARTIAL: the interleaving logic is proved on the model; the parsers' look-ahead (serde_json, rmp-serde, libyaml) is "
                   "a premise measured on every run (observed lag 0, 0 and 1 document); allocator behaviour is measured, not proved. "
                   "No axioms.",
